@@ -587,7 +587,7 @@ def _cumulative_budget(w: World, rep: Report, fields):
     # count is what carries the calls of a pass into the next pass); a fresh sub-tape per pass starts each pass from
     # the count the LOOP was entered with
     lp_h = w.handler_for('OP_LOOP')
-    whiles = [x for x in ast.walk(lp_h.node) if isinstance(x, ast.While)]
+    whiles = [x for x in ast.walk(lp_h.node) if isinstance(x, (ast.While, ast.For))]
     inside = [c for wl in whiles for c in ast.walk(wl) if isinstance(c, ast.Call) and isinstance(c.func, ast.Name) and c.func.id == 'Tape']
     carried = any(isinstance(x, (ast.Assign, ast.AugAssign)) and 'callstack_count' in ast.unparse(x.targets[0] if isinstance(x, ast.Assign) else x.target)
                   for wl in whiles for x in ast.walk(wl))
